@@ -24,9 +24,9 @@
 (*               directory of the last relative target; key = matched      *)
 (*               exports/imports key                                       *)
 (*                                                                         *)
-(* Places where real Node 20 differs from the documented text (found by    *)
-(* the SPEC-DRIFT comparison against real Node, then followed here) are    *)
-(* marked  DRIFT-FIX.                                                      *)
+(* DRIFT-FIX marks where real Node 20 differs from the documented text:    *)
+(* legacy main probing, null item of a fallback array (known, confirmed by *)
+(* the comparison), empty path segment (found by the SPEC-DRIFT comparison)*)
 (***************************************************************************)
 EXTENDS Integers, Sequences, FiniteSets, TLC
 
